@@ -3,6 +3,11 @@ import Dmn.Lemmas.Ops
 import Dmn.Props.C13
 import Dmn.Lemmas.Iter
 import Dmn.Lemmas.EvalSpec
+import Dmn.Lemmas.EvalSemFuel
+import Dmn.Lemmas.EvalSemScope
+import Dmn.Lemmas.EvalSemLoops
+import Dmn.Lemmas.EvalSemInvoke
+import Dmn.Lemmas.EvalSemOps
 
 /-!
 # C01 — FEEL core expressions evaluate to the value the FEEL semantics assigns
@@ -492,4 +497,733 @@ example : (Variant.guard Variant.code).iter
       · simp [Iter.mkRange, Iter.i64Max]
       · cases ht
 
+end Dmn.Eval
+
+
+/-!
+## The compositional semantics, construct by construct
+
+Each theorem relates the evaluation of a construct to the evaluations of its parts, for all
+sub-expressions, scopes and environments (`env` is arbitrary: the theorems hold of the model of
+the code `eval`, of the specification `den`, at every fuel).  A hypothesis
+`evalStep env a s = .ok (v, s)` says that the part returns `v`; that it leaves the scope alone is
+not an assumption on the code (C13 proves it of every evaluation).
+-/
+
+namespace Dmn.Eval
+open EvalM Value
+
+variable (env : Env)
+
+/-! ### arithmetic, comparison, negation -/
+
+/-- The binary arithmetic operators evaluate both operands, left first, and apply the
+operator's table (`addV` … `expV`). -/
+theorem arith_spec (a b : Ast) (s : Scope) (va vb : Value)
+    (ha : evalStep env a s = .ok (va, s)) (hb : evalStep env b s = .ok (vb, s)) :
+    evalStep env (.add a b) s = .ok (addV env.num va vb, s) ∧
+    evalStep env (.sub a b) s = .ok (subV env.num va vb, s) ∧
+    evalStep env (.mul a b) s = .ok (mulV env.num va vb, s) ∧
+    evalStep env (.div a b) s = .ok (divV env.num va vb, s) ∧
+    evalStep env (.exp a b) s = .ok (expV env.num va vb, s) := by
+  refine ⟨?_, ?_, ?_, ?_, ?_⟩ <;> simp only [evalStep, bind_def, ha, hb, pure_def]
+
+/-- On two numbers the operators are the operations of the number arithmetic (`NumOps`: the
+correctly rounded decimal128 of C02 in the driver); division by zero is null. -/
+theorem arith_num_spec (n : NumOps) (x y : Dec) :
+    addV n (.num x) (.num y) = numR (n.add x y) ∧
+    subV n (.num x) (.num y) = numR (n.sub x y) ∧
+    mulV n (.num x) (.num y) = numR (n.mul x y) ∧
+    divV n (.num x) (.num y) = (if y.coeff == 0 then .null else numR (n.div x y)) ∧
+    expV n (.num x) (.num y) = (match n.pow x y with
+      | some (some d) => .num d
+      | some none => .null
+      | none => unsupported) := ⟨rfl, rfl, rfl, rfl, rfl⟩
+
+/-- `*`, `/`, `**` are defined on two numbers only; everything else is null (`+` and `-` also
+join strings and durations: `addV`, `subV`). -/
+theorem arith_not_numbers_null (n : NumOps) (l r : Value) (h : ∀ x y, l = .num x → r = .num y → False) :
+    mulV n l r = .null ∧ divV n l r = .null ∧ expV n l r = .null := by
+  refine ⟨?_, ?_, ?_⟩
+  · unfold mulV; split
+    · exact (h _ _ rfl rfl).elim
+    · rfl
+  · unfold divV; split
+    · exact (h _ _ rfl rfl).elim
+    · rfl
+  · unfold expV; split
+    · exact (h _ _ rfl rfl).elim
+    · rfl
+
+theorem neg_spec (a : Ast) (s : Scope) (va : Value) (ha : evalStep env a s = .ok (va, s)) :
+    evalStep env (.neg a) s = .ok (negV va, s) := by
+  simp only [evalStep, bind_def, ha, pure_def]
+
+/-- The comparison operators evaluate both operands and apply the three-valued tables of C09. -/
+theorem cmp_spec (a b : Ast) (s : Scope) (va vb : Value)
+    (ha : evalStep env a s = .ok (va, s)) (hb : evalStep env b s = .ok (vb, s)) :
+    evalStep env (.lt a b) s = .ok (ltV va vb, s) ∧
+    evalStep env (.le a b) s = .ok (leV va vb, s) ∧
+    evalStep env (.gt a b) s = .ok (gtV va vb, s) ∧
+    evalStep env (.ge a b) s = .ok (geV va vb, s) ∧
+    evalStep env (.eq a b) s = .ok (eqV va vb, s) ∧
+    evalStep env (.nq a b) s = .ok (nqV va vb, s) := by
+  refine ⟨?_, ?_, ?_, ?_, ?_, ?_⟩ <;> simp only [evalStep, bind_def, ha, hb, pure_def]
+
+/-- On two numbers the comparisons are those of the numeric order (`decQuadCompare`). -/
+theorem cmp_num_spec (x y : Dec) :
+    ltV (.num x) (.num y) = .bool (Dec.cmp x y == .lt) ∧
+    leV (.num x) (.num y) = .bool (Dec.cmp x y != .gt) ∧
+    gtV (.num x) (.num y) = .bool (Dec.cmp x y == .gt) ∧
+    geV (.num x) (.num y) = .bool (Dec.cmp x y != .lt) ∧
+    eqV (.num x) (.num y) = .bool (Dec.beq x y) ∧
+    nqV (.num x) (.num y) = .bool (!Dec.beq x y) := ⟨rfl, rfl, rfl, rfl, rfl, rfl⟩
+
+/-! ### between, in, paths -/
+
+theorem between_spec (x a b : Ast) (s : Scope) (vx va vb : Value)
+    (hx : evalStep env x s = .ok (vx, s)) (ha : evalStep env a s = .ok (va, s))
+    (hb : evalStep env b s = .ok (vb, s)) :
+    evalStep env (.between x a b) s = .ok (betweenV vx va vb, s) := by
+  simp only [evalStep, bind_def, hx, ha, hb, pure_def]
+
+/-- `x between a and b` has the value of `a <= x and x <= b` whenever the three values are
+numbers, strings, dates or durations of one kind. -/
+theorem between_eq_conj (x a b : Ast) (s : Scope) (vx va vb : Value)
+    (hx : evalStep env x s = .ok (vx, s)) (ha : evalStep env a s = .ok (va, s))
+    (hb : evalStep env b s = .ok (vb, s)) (hk : SameOrderedKind vx va vb) :
+    evalStep env (.between x a b) s = evalStep env (.and (.le a x) (.le x b)) s := by
+  simp only [evalStep, bind_def, hx, ha, hb, pure_def, betweenV_eq_conj vx va vb hk]
+
+example : SameOrderedKind (.num (Dec.ofNat 5)) (.num (Dec.ofNat 1)) (.num (Dec.ofNat 9)) := .num _ _ _
+
+-- FULL STATEMENT (not provable of the current code): `between_eq_conj` without `hk`.
+/-- With operands of different kinds `between` is null where the conjunction that defines it in
+DMN is already false: `5 between 7 and "a"` is null, `7 <= 5 and 5 <= "a"` is false. -/
+theorem between_eq_conj_counterexample :
+    betweenV (.num (Dec.ofNat 5)) (.num (Dec.ofNat 7)) (.str "a") = .null ∧
+      and3 (leV (.num (Dec.ofNat 7)) (.num (Dec.ofNat 5))) (leV (.num (Dec.ofNat 5)) (.str "a")) = .bool false :=
+  betweenV_ne_conj_counterexample
+
+theorem in_spec (a b : Ast) (s : Scope) (va vb : Value)
+    (ha : evalStep env a s = .ok (va, s)) (hb : evalStep env b s = .ok (vb, s)) :
+    evalStep env (.in a b) s = .ok (inV va vb, s) := by
+  simp only [evalStep, bind_def, ha, hb, pure_def]
+
+/-- `x in v` for a plain value `v` is equality (incomparable counts as false). -/
+theorem in_value_spec (l r : Value) (h : isPlain r = true) : inV l r = .bool (eqT l r == some true) :=
+  inV_plain l r h
+
+/-- `x in [i₁, …]` / `x in (i₁, …)` over plain items is membership up to FEEL equality. -/
+theorem in_list_spec (l : Value) (items : List Value) (hl : ∀ vs, l ≠ .list vs)
+    (h : ∀ i ∈ items, isPlain i = true) :
+    inV l (.list items) = .bool (items.any (fun i => eqT l i == some true)) ∧
+    inV l (.exprList items) = .bool (items.any (fun i => eqT l i == some true)) := by
+  refine ⟨?_, ?_⟩
+  · rw [inV_list_of_scalar l items hl, inList_plain l items h]
+  · show inList l items = _
+    exact inList_plain l items h
+
+example : ∀ vs, (Value.num (Dec.ofNat 1)) ≠ .list vs := by intro vs h; cases h
+
+/-- `x in [a..b]` on numbers respects which ends are closed; `x in < r` etc. are the comparisons. -/
+theorem in_range_unary_spec (x a b r : Dec) (lc rc : Bool) :
+    inV (.num x) (.range (.num a) lc (.num b) rc) =
+      .bool ((if lc then Dec.cmp x a != .lt else Dec.cmp x a == .gt) &&
+             (if rc then Dec.cmp x b != .gt else Dec.cmp x b == .lt)) ∧
+    inV (.num x) (.unaryLt (.num r)) = .bool (Dec.cmp x r == .lt) ∧
+    inV (.num x) (.unaryLe (.num r)) = .bool (Dec.cmp x r != .gt) ∧
+    inV (.num x) (.unaryGt (.num r)) = .bool (Dec.cmp x r == .gt) ∧
+    inV (.num x) (.unaryGe (.num r)) = .bool (Dec.cmp x r != .lt) := ⟨rfl, rfl, rfl, rfl, rfl⟩
+
+/-- `e.n`: the entry `n` of a context (null when missing); over a list of contexts the entries
+that exist, in order; null over a list with an item that is not a context. -/
+theorem path_spec (a : Ast) (n : String) (s : Scope) (va : Value) (ha : evalStep env a s = .ok (va, s)) :
+    evalStep env (.path a (.name n)) s = .ok (pathV va n, s) ∧
+    (∀ c, va = .ctx c → pathV va n = (Ctx.get c n).getD .null) ∧
+    (∀ cs : List Ctx, va = .list (cs.map Value.ctx) → pathV va n = .list (cs.filterMap (fun c => Ctx.get c n))) ∧
+    (∀ items, va = .list items → (∃ i ∈ items, isCtx i = false) → pathV va n = .null) := by
+  refine ⟨by simp only [evalStep, bind_def, ha, pure_def], ?_, ?_, ?_⟩
+  · rintro c rfl; rfl
+  · rintro cs rfl; exact pathV_list_of_ctxs cs n
+  · rintro items rfl h; exact pathV_list_not_ctxs items n h
+
+/-! ### filter -/
+
+/-- **Filter on a list.** The predicate is evaluated once per item in the item's scope
+(`itemScope`: the entries of an item that is a context, and `item`) and once more in the scope of
+the filter itself.  If that last value is a number the filter is an index; otherwise the result
+keeps exactly the items, in order, whose predicate value is `true` — and a result of exactly one
+item is that item, not a list (`filterResult`; pinned by the repository's tests). -/
+theorem filter_spec (a b : Ast) (s : Scope) (values : List Value) (pv : Value → Value) (rhv : Value)
+    (ha : evalStep env a s = .ok (.list values, s))
+    (hp : ∀ v ∈ values, evalStep env b (itemScope s v) = .ok (pv v, itemScope s v))
+    (hr : evalStep env b s = .ok (rhv, s)) :
+    evalStep env (.filter a b) s =
+      .ok ((match rhv with
+        | .num index => env.index values index
+        | _ => filterResult (values.filter (fun v => isTrue (pv v)))), s) := by
+  simp only [evalStep, bind_def, ha, filterLoop_spec (evalStep env b) pv s values hp, hr]
+  cases rhv <;> rfl
+
+/-- The singleton rule of `filterResult`. -/
+theorem filter_result_spec (kept : List Value) :
+    filterResult kept = (match kept with | [v] => v | _ => .list kept) := rfl
+
+/-- **Filter on a value that is not a list.** The value is *not* treated as a one-item list:
+the predicate is evaluated in the scope of the filter (no `item`), `true` gives `[v]` (not
+unwrapped), `false` gives `[]`, the index 1 gives `v`, everything else null; a value that is
+null, a range or a function gives null without evaluating the predicate. -/
+theorem filter_scalar_spec (a b : Ast) (s : Scope) (v rhv : Value)
+    (ha : evalStep env a s = .ok (v, s)) (hnl : ∀ vs, v ≠ .list vs)
+    (hr : isFilterScalar v = true → evalStep env b s = .ok (rhv, s)) :
+    evalStep env (.filter a b) s = .ok ((if isFilterScalar v then filterScalar v rhv else .null), s) := by
+  simp only [evalStep, bind_def, ha]
+  cases v with
+  | list vs => exact absurd rfl (hnl vs)
+  | _ =>
+    split
+    · rename_i hs
+      simp only [bind_def, hr hs, pure_def]
+    · rfl
+
+theorem filter_scalar_table (v rhv : Value) :
+    filterScalar v rhv = (match rhv with
+      | .bool flag => if flag then .list [v] else .list []
+      | .num n => if Dec.isOne n then v else .null
+      | _ => .null) := rfl
+
+theorem mkEnv_index (num : NumOps) (bp : String → List Value → Outcome Value)
+    (bn : String → List (String × Value × Nat) → Outcome Value) (v : Variant) (fuel : Nat) :
+    (mkEnv num bp bn v fuel).index = v.index := by cases fuel <;> rfl
+
+theorem mkEnv_iter (num : NumOps) (bp : String → List Value → Outcome Value)
+    (bn : String → List (String × Value × Nat) → Outcome Value) (v : Variant) (fuel : Nat) :
+    (mkEnv num bp bn v fuel).iter = v.iter := by cases fuel <;> rfl
+
+/-- **Numeric filter of the code = 1-based indexing** (`index_spec`): in the model of the code
+`l[n]` is the `n`-th item for `1 ≤ n ≤ |l|`. -/
+theorem filter_index_spec (num : NumOps) (bp : String → List Value → Outcome Value)
+    (bn : String → List (String × Value × Nat) → Outcome Value) (fuel : Nat)
+    (a b : Ast) (s : Scope) (values : List Value) (pv : Value → Value) (n : Nat)
+    (ha : eval num bp bn fuel a s = .ok (.list values, s))
+    (hp : ∀ v ∈ values, eval num bp bn fuel b (itemScope s v) = .ok (pv v, itemScope s v))
+    (hr : eval num bp bn fuel b s = .ok (.num (Dec.ofNat n), s))
+    (hn : 1 ≤ n ∧ n ≤ values.length) (hlen : values.length < 2 ^ 64) :
+    eval num bp bn fuel (.filter a b) s = .ok ((values[n - 1]?).getD .null, s) := by
+  have h := filter_spec (mkEnv num bp bn Variant.code fuel) a b s values pv _ ha hp hr
+  simp only [eval] at h ⊢
+  rw [h, mkEnv_index, index_code_eq_spec values _ hlen, index_spec values n hn]
+
+/-- A negative index counts from the end: `l[-n]` is the `n`-th item from the end (specification
+variant of the index rule; the code's rule is the same: `index_code_eq_spec`). -/
+theorem index_spec_neg (values : List Value) (n : Nat) (h : 1 ≤ n ∧ n ≤ values.length) :
+    Variant.spec.index values ⟨true, n, 0⟩ = (values[values.length - n]?).getD .null := by
+  simp only [Variant.spec, Dec.toInt?, Dec.scoeff]
+  have h1 : ¬ ((1 : Int) ≤ -(n : Int) ∧ -(n : Int) ≤ (values.length : Int)) := by omega
+  have h2 : (-(values.length : Int) ≤ -(n : Int) ∧ -(n : Int) ≤ -1) := by omega
+  simp only [ge_iff_le, Int.le_refl, if_true, Int.toNat_zero, Int.pow_zero, Int.mul_one, h1, h2, if_false]
+  simp only [and_self, if_true]
+  congr 2
+  omega
+
+example : Variant.spec.index [.null, .bool true] ⟨true, 1, 0⟩ = .bool true := by
+  rw [index_spec_neg _ 1 (by decide)]; rfl
+
+/-- Paths on dates and durations select their components. -/
+theorem path_temporal_spec (y : Int) (m d : Nat) (months : Int) :
+    pathV (.date y m d) "year" = .num (Dec.ofInt y) ∧
+    pathV (.date y m d) "month" = .num (Dec.ofNat m) ∧
+    pathV (.date y m d) "day" = .num (Dec.ofNat d) ∧
+    pathV (.ymDur months) "years" = .num (Dec.ofInt (Int.tdiv months 12)) ∧
+    pathV (.ymDur months) "months" = .num (Dec.ofInt (Int.tmod months 12)) := by
+  refine ⟨?_, ?_, ?_, ?_, ?_⟩ <;> simp [pathV]
+
+/-! ### some, every, for -/
+
+/-- **`some`** over domains none of which is the empty list: true iff the body is `true` for one
+of the iteration contexts the engine produces (other body values — false, null — do not count). -/
+theorem some_spec (doms : List QDom) (body : Ast) (s : Scope) (cs : List Ctx) (bv : Ctx → Value)
+    (hd : ∀ d ∈ doms, evalStep env d.2.1 s = .ok (d.2.2, s))
+    (hne : doms.any (fun d => isEmptyList d.2.2) = false)
+    (hit : env.iter (quantStates 0 doms) = .ok cs)
+    (hb : ∀ c ∈ cs, evalStep env body (s ++ [c]) = .ok (bv c, s ++ [c])) :
+    evalStep env (.some (.quantifiedContexts (quantItems doms)) (.satisfies body)) s =
+      .ok (.bool (cs.any (fun c => isTrue (bv c))), s) := by
+  simp only [evalStep, bind_def, evalQuantified_spec env s doms 0 hd, hne, Bool.false_eq_true, if_false,
+    lift, hit, quantLoop_some (evalStep env body) bv s cs false hb, Bool.false_or, pure_def]
+
+/-- **`every`**: false iff the body is `false` for one of the iteration contexts; a body value
+that is null (or not Boolean) does **not** make the result null. -/
+theorem every_spec (doms : List QDom) (body : Ast) (s : Scope) (cs : List Ctx) (bv : Ctx → Value)
+    (hd : ∀ d ∈ doms, evalStep env d.2.1 s = .ok (d.2.2, s))
+    (hne : doms.any (fun d => isEmptyList d.2.2) = false)
+    (hit : env.iter (quantStates 0 doms) = .ok cs)
+    (hb : ∀ c ∈ cs, evalStep env body (s ++ [c]) = .ok (bv c, s ++ [c])) :
+    evalStep env (.every (.quantifiedContexts (quantItems doms)) (.satisfies body)) s =
+      .ok (.bool (cs.all (fun c => !isFalse (bv c))), s) := by
+  simp only [evalStep, bind_def, evalQuantified_spec env s doms 0 hd, hne, Bool.false_eq_true, if_false,
+    lift, hit, quantLoop_every (evalStep env body) bv s cs true hb, Bool.true_and, pure_def]
+
+/-- One empty domain: `some` is false and `every` is true, whatever the other domains and the
+body are (the product is empty). -/
+theorem quantified_empty_domain (doms : List QDom) (body : Ast) (s : Scope)
+    (hd : ∀ d ∈ doms, evalStep env d.2.1 s = .ok (d.2.2, s))
+    (he : doms.any (fun d => isEmptyList d.2.2) = true) :
+    evalStep env (.some (.quantifiedContexts (quantItems doms)) (.satisfies body)) s = .ok (.bool false, s) ∧
+    evalStep env (.every (.quantifiedContexts (quantItems doms)) (.satisfies body)) s = .ok (.bool true, s) := by
+  constructor <;>
+    simp only [evalStep, bind_def, evalQuantified_spec env s doms 0 hd, he, if_true, pure_def]
+
+/-- In the model of the code the iteration contexts of `some` / `every` are the cartesian product
+of the domains, first declared variable outermost (`run_eq_product`). -/
+theorem code_iter_quantStates (num : NumOps) (bp : String → List Value → Outcome Value)
+    (bn : String → List (String × Value × Nat) → Outcome Value) (fuel : Nat) (doms : List QDom)
+    (hne : doms ≠ []) (hnempty : doms.any (fun d => isEmptyList d.2.2) = false)
+    (hlen : ∀ d ∈ doms, ((listOf d.2.2).length : Int) - 1 ≤ Iter.i64Max) :
+    (mkEnv num bp bn Variant.code fuel).iter (quantStates 0 doms) =
+      .ok (Iter.product (doms.map (fun d => Iter.mkList d.1 (listOf d.2.2)))) := by
+  rw [mkEnv_iter]
+  simp only [Variant.code, quantStates_map_snd]
+  apply Iter.run_eq_product
+  · cases doms with
+    | nil => exact absurd rfl hne
+    | cons _ _ => simp
+  · intro st hst
+    obtain ⟨d, hd, rfl⟩ := List.mem_map.mp hst
+    apply Iter.Fresh.list _ _ _ (hlen d hd)
+    apply listOf_ne_nil
+    intro hv
+    have : isEmptyList d.2.2 = true := by rw [hv]; rfl
+    have hall := List.any_eq_false.mp hnempty d hd
+    exact hall this
+
+/-- **`some` / `every` of the code range over the full cartesian product of the domains.** -/
+theorem eval_some_every_product (num : NumOps) (bp : String → List Value → Outcome Value)
+    (bn : String → List (String × Value × Nat) → Outcome Value) (fuel : Nat)
+    (doms : List QDom) (body : Ast) (s : Scope) (bv : Ctx → Value)
+    (hd : ∀ d ∈ doms, eval num bp bn fuel d.2.1 s = .ok (d.2.2, s))
+    (hne : doms ≠ []) (hnempty : doms.any (fun d => isEmptyList d.2.2) = false)
+    (hlen : ∀ d ∈ doms, ((listOf d.2.2).length : Int) - 1 ≤ Iter.i64Max)
+    (hb : ∀ c ∈ Iter.product (doms.map (fun d => Iter.mkList d.1 (listOf d.2.2))),
+      eval num bp bn fuel body (s ++ [c]) = .ok (bv c, s ++ [c])) :
+    eval num bp bn fuel (.some (.quantifiedContexts (quantItems doms)) (.satisfies body)) s =
+      .ok (.bool ((Iter.product (doms.map (fun d => Iter.mkList d.1 (listOf d.2.2)))).any
+        (fun c => isTrue (bv c))), s) ∧
+    eval num bp bn fuel (.every (.quantifiedContexts (quantItems doms)) (.satisfies body)) s =
+      .ok (.bool ((Iter.product (doms.map (fun d => Iter.mkList d.1 (listOf d.2.2)))).all
+        (fun c => !isFalse (bv c))), s) :=
+  ⟨some_spec _ doms body s _ bv hd hnempty (code_iter_quantStates num bp bn fuel doms hne hnempty hlen) hb,
+   every_spec _ doms body s _ bv hd hnempty (code_iter_quantStates num bp bn fuel doms hne hnempty hlen) hb⟩
+
+/-- **`for`**: when every domain has a state (no empty list, integer range ends) the result is
+the list of the body values over the iteration contexts in order, each body evaluation seeing
+the results so far as `partial`. -/
+theorem for_spec (doms : List ForDom) (sts : List Iter.State) (body : Ast) (s : Scope) (cs : List Ctx)
+    (bv : Ctx → List Value → Value)
+    (hd : ∀ d ∈ doms, d.Evaluates env s)
+    (hst : doms.map ForDom.state? = sts.map some)
+    (hit : env.iter (tagFrom 0 sts) = .ok cs)
+    (hb : ∀ pre c post, cs = pre ++ c :: post →
+      evalStep env body (forScope s c (forFold bv pre [])) =
+        .ok (bv c (forFold bv pre []), forScope s c (forFold bv pre []))) :
+    evalStep env (.for (.iterationContexts (doms.map ForDom.item)) body) s =
+      .ok (.list (forFold bv cs []), s) := by
+  simp only [evalStep, bind_def, evalIteration_spec env s doms 0 hd, forDomains_states doms sts 0 hst,
+    lift, hit, forLoop_spec (evalStep env body) bv s cs [] hb, pure_def]
+
+/-- The result of such a `for` has one item per iteration context. -/
+theorem for_length (bv : Ctx → List Value → Value) (cs : List Ctx) :
+    (forFold bv cs []).length = cs.length := by
+  rw [forFold_length]; simp
+
+/-- A body that does not use `partial`: the result is the map of the body over the contexts. -/
+theorem for_map (f : Ctx → Value) (cs : List Ctx) : forFold (fun c _ => f c) cs [] = cs.map f := by
+  rw [forFold_map]; simp
+
+/-- A list domain that evaluates to `[]` (reached: the domains before it have states) makes the
+`for` the empty list; a range whose ends are not integers makes it null (`for_range_not_integers_null`). -/
+theorem for_empty_domain (pre : List ForDom) (sts : List Iter.State) (n : String) (e : Ast)
+    (post : List ForDom) (body : Ast) (s : Scope)
+    (hd : ∀ d ∈ pre ++ .single n e (.list []) :: post, d.Evaluates env s)
+    (hst : pre.map ForDom.state? = sts.map some) :
+    evalStep env (.for (.iterationContexts ((pre ++ .single n e (.list []) :: post).map ForDom.item)) body) s =
+      .ok (.list [], s) := by
+  simp only [evalStep, bind_def, evalIteration_spec env s _ 0 hd, forDomains_empty pre sts n e post 0 hst,
+    pure_def]
+
+theorem state?_shaped (d : ForDom) (st : Iter.State) (h : d.state? = some st) : Iter.Shaped st := by
+  cases d with
+  | single n e v =>
+    simp only [ForDom.state?] at h
+    by_cases he : isEmptyList v = true
+    · simp [he] at h
+    · simp only [he, Bool.false_eq_true, if_false, Option.some.injEq] at h
+      subst h
+      apply Iter.Shaped.list
+      apply listOf_ne_nil
+      intro hv; apply he; rw [hv]; rfl
+  | range n lo hi a b => exact rangeState_shaped n a b st h
+
+/-- **`for` of the code ranges over the full cartesian product** of its domains in declaration
+order, and its result has `∏ |domainᵢ|` items. -/
+theorem eval_for_product (num : NumOps) (bp : String → List Value → Outcome Value)
+    (bn : String → List (String × Value × Nat) → Outcome Value) (fuel : Nat)
+    (doms : List ForDom) (sts : List Iter.State) (body : Ast) (s : Scope) (bv : Ctx → List Value → Value)
+    (hd : ∀ d ∈ doms, d.Evaluates (mkEnv num bp bn Variant.code fuel) s)
+    (hst : doms.map ForDom.state? = sts.map some) (hne : sts ≠ [])
+    (hlen : ∀ st ∈ sts, (st.values.length : Int) - 1 ≤ Iter.i64Max)
+    (hb : ∀ pre c post, Iter.product sts = pre ++ c :: post →
+      eval num bp bn fuel body (forScope s c (forFold bv pre [])) =
+        .ok (bv c (forFold bv pre []), forScope s c (forFold bv pre []))) :
+    eval num bp bn fuel (.for (.iterationContexts (doms.map ForDom.item)) body) s =
+      .ok (.list (forFold bv (Iter.product sts) []), s) ∧
+    (forFold bv (Iter.product sts) []).length =
+      (sts.map (fun st => (Iter.domain st).length)).foldl (· * ·) 1 := by
+  have hit : (mkEnv num bp bn Variant.code fuel).iter (tagFrom 0 sts) = .ok (Iter.product sts) := by
+    rw [mkEnv_iter]
+    simp only [Variant.code, tagFrom_map_snd]
+    apply Iter.run_eq_product sts hne
+    intro st hm
+    have hmem : some st ∈ doms.map ForDom.state? := by rw [hst]; exact List.mem_map_of_mem hm
+    obtain ⟨d, _, hds⟩ := List.mem_map.mp hmem
+    exact Iter.fresh_of_shaped st (state?_shaped d st hds) (hlen st hm)
+  exact ⟨for_spec _ doms sts body s _ bv hd hst hit hb, by rw [for_length, Iter.product_length]⟩
+
+/-! ### function invocation -/
+
+/-- **Positional invocation of a function value.** The body is evaluated in the scope of the
+*call* extended by ONE context that binds every formal parameter to the argument at its position
+coerced to the parameter's type (`argCtx`; null when not coercible: C16); the result is coerced
+to the declared result type.  Surplus arguments are ignored. -/
+theorem invocation_binds_coerced (f : Ast) (xs : List Ast) (s : Scope)
+    (ps : List (String × FType)) (body : Ast) (rt : FType) (vs : List Value) (r : Value)
+    (hf : evalStep env f s = .ok (.fn ps body rt, s))
+    (hxs : evalList env xs s = .ok (vs, s))
+    (harity : ps.length ≤ vs.length)
+    (hbody : env.call body (s ++ [argCtx ps vs []]) = .ok (r, s ++ [argCtx ps vs []])) :
+    evalStep env (.functionInvocation f (.positionalParameters xs)) s = .ok (Value.coerced rt r, s) := by
+  simp only [evalStep, bind_def, hf, hxs, invokePositional, bindPositional_eq, harity, if_true]
+  exact callFunction_ok env _ body rt s r hbody
+
+/-- In the evaluator proper the body evaluator is the evaluator itself, one unit of fuel down. -/
+theorem mkEnv_call_succ (num : NumOps) (bp : String → List Value → Outcome Value)
+    (bn : String → List (String × Value × Nat) → Outcome Value) (v : Variant) (fuel : Nat) (b : Ast) :
+    (mkEnv num bp bn v (fuel + 1)).call b = evalWith v num bp bn fuel b := rfl
+
+/-- Too few arguments: null (the body is not evaluated).  What is invoked is not a function:
+null. -/
+theorem invocation_wrong_arity_null (f : Ast) (xs : List Ast) (s : Scope)
+    (ps : List (String × FType)) (body : Ast) (rt : FType) (vs : List Value)
+    (hf : evalStep env f s = .ok (.fn ps body rt, s))
+    (hxs : evalList env xs s = .ok (vs, s)) (harity : vs.length < ps.length) :
+    evalStep env (.functionInvocation f (.positionalParameters xs)) s = .ok (.null, s) := by
+  have : ¬ ps.length ≤ vs.length := by omega
+  simp only [evalStep, bind_def, hf, hxs, invokePositional, bindPositional_eq, this, if_false, pure_def]
+
+/-- Invoking a value that is neither a function value nor a built-in function is null. -/
+theorem invocation_not_function_null (f : Ast) (xs : List Ast) (s : Scope) (fv : Value) (vs : List Value)
+    (hf : evalStep env f s = .ok (fv, s)) (hxs : evalList env xs s = .ok (vs, s))
+    (h1 : ∀ ps b rt, fv ≠ .fn ps b rt) (h2 : ∀ n, fv ≠ .bif n) :
+    evalStep env (.functionInvocation f (.positionalParameters xs)) s = .ok (.null, s) := by
+  simp only [evalStep, bind_def, hf, hxs]
+  cases fv <;> first | rfl | exact absurd rfl (h1 _ _ _) | exact absurd rfl (h2 _)
+
+example (s : Scope) : evalStep env (.functionInvocation .null (.positionalParameters [])) s = .ok (.null, s) :=
+  invocation_not_function_null env _ _ s .null [] rfl rfl (by intro _ _ _ h; cases h) (by intro _ h; cases h)
+
+/-- **Named invocation binds by name**: it is the positional invocation with the arguments
+permuted into the order in which the parameters are declared (a name given twice: the last
+value, `namedGet_collectNamed`); a parameter without argument makes it null. -/
+theorem named_eq_positional_invocation (f : Ast) (xs : List Ast) (s : Scope)
+    (ps : List (String × FType)) (body : Ast) (rt : FType) (vs : List Value)
+    (hf : evalStep env f s = .ok (.fn ps body rt, s))
+    (hxs : evalList env xs s = .ok (vs, s)) :
+    evalStep env (.functionInvocation f (.namedParameters xs)) s =
+      (match ps.mapM (fun p => namedGet (collectNamed vs 1 []) p.1) with
+        | some args => invokePositional env (.fn ps body rt) args s
+        | none => .ok (.null, s)) := by
+  simp only [evalStep, bind_def, hf, hxs]
+  cases h : ps.mapM (fun p => namedGet (collectNamed vs 1 []) p.1) with
+  | some args => rw [invokeNamed_eq_positional env ps body rt _ args h]
+  | none => exact invokeNamed_missing env ps body rt _ h s
+
+/-- The named arguments as a map: every name is bound to the value of its last occurrence. -/
+theorem named_arguments_spec (pairs : List (String × Value)) (k : String) :
+    namedGet (collectNamed (namedValues pairs) 1 []) k =
+      (pairs.reverse.find? (fun p => p.1 = k)).map Prod.snd := by
+  rw [namedGet_collectNamed]
+  cases pairs.reverse.find? (fun p => p.1 = k) <;> rfl
+
+/-! ### context literals -/
+
+/-- **A context literal** has exactly the keys written; entry *k* is evaluated in the scope
+extended by ONE context holding the entries before it; a key written twice keeps its last value
+(`get_ctxFold`) — and the later entries see the value written last. -/
+theorem context_spec (ents : List CEntry) (s : Scope)
+    (h : ∀ pre e post, ents = pre ++ e :: post →
+      evalStep env e.2.1 (s ++ [ctxFold pre []]) = .ok (e.2.2, s ++ [ctxFold pre []])) :
+    evalStep env (.context (ents.map CEntry.ast)) s = .ok (.ctx (ctxFold ents []), s) := by
+  simp only [evalStep, bind_def, push, Scope.push, evalContextEntries_spec env s ents [] [] h, pop,
+    Scope.pop, dropLast_append_single, pure_def]
+
+/-- The keys of the value: bound iff written, to the value of the last entry with that key. -/
+theorem context_keys_spec (ents : List CEntry) (k : String) :
+    Ctx.get (ctxFold ents []) k = (ents.reverse.find? (fun e => e.1.key = k)).map (fun e => e.2.2) := by
+  rw [get_ctxFold]
+  cases ents.reverse.find? (fun e => e.1.key = k) <;> rfl
+
+/-! ### fuel -/
+
+/-- **More fuel never changes a completed evaluation**: with `fuel' ≥ fuel` the outcome — value
+and scope, or panic — is the same unless the evaluation with `fuel` ran out of fuel. -/
+theorem eval_fuel_only_diverge (num : NumOps) (bp : String → List Value → Outcome Value)
+    (bn : String → List (String × Value × Nat) → Outcome Value) (fuel fuel' : Nat) (hle : fuel ≤ fuel')
+    (a : Ast) (s : Scope) :
+    eval num bp bn fuel a s = .diverge ∨ eval num bp bn fuel' a s = eval num bp bn fuel a s :=
+  evalWith_refines_le num bp bn Variant.code fuel fuel' hle a s
+
+theorem eval_fuel_mono (num : NumOps) (bp : String → List Value → Outcome Value)
+    (bn : String → List (String × Value × Nat) → Outcome Value) (fuel fuel' : Nat) (hle : fuel ≤ fuel')
+    (a : Ast) (s : Scope) (r : Value × Scope) (h : eval num bp bn fuel a s = .ok r) :
+    eval num bp bn fuel' a s = .ok r := by
+  rcases eval_fuel_only_diverge num bp bn fuel fuel' hle a s with hd | he
+  · rw [hd] at h; cases h
+  · rw [he, h]
+
+/-- The same for the specification evaluator. -/
+theorem den_fuel_mono (num : NumOps) (bp : String → List Value → Outcome Value)
+    (bn : String → List (String × Value × Nat) → Outcome Value) (fuel fuel' : Nat) (hle : fuel ≤ fuel')
+    (a : Ast) (s : Scope) (r : Value × Scope) (h : den num bp bn fuel a s = .ok r) :
+    den num bp bn fuel' a s = .ok r := by
+  rcases evalWith_refines_le num bp bn Variant.spec fuel fuel' hle a s with hd | he
+  · have : den num bp bn fuel a s = .diverge := hd
+    rw [this] at h; cases h
+  · have : den num bp bn fuel' a s = den num bp bn fuel a s := he
+    rw [this, h]
+
+/-! ### the result depends on the bindings of the scope only -/
+
+-- FULL STATEMENT (not provable of the current code, finding F-C01-qualified-name-shadow):
+--   ∀ s₁ s₂, Scope.equivVisible s₁ s₂ →
+--     (eval num bp bn fuel a s₁).map Prod.fst = (eval num bp bn fuel a s₂).map Prod.fst
+-- (`Scope::search_deep`, which evaluates the qualified name of an interval endpoint, looks for a
+-- context holding the whole qualified name and so sees through a shadowing binding of its first
+-- segment: see `eval_depends_on_bindings_counterexample`.)
+
+/-- **The outcome depends only on the expression and on what the scope binds** — not on how the
+bindings are spread over the contexts of the scope: two scopes that answer every (qualified) name
+lookup alike (`hdeep`) give the same value, the same panic or the same divergence, and each
+evaluation leaves its own scope as it found it. -/
+theorem eval_depends_on_bindings_partial (num : NumOps) (bp : String → List Value → Outcome Value)
+    (bn : String → List (String × Value × Nat) → Outcome Value) (fuel : Nat) (a : Ast)
+    (s₁ s₂ : Scope) (hdeep : Scope.equivDeep s₁ s₂) :
+    (eval num bp bn fuel a s₁).map Prod.fst = (eval num bp bn fuel a s₂).map Prod.fst ∧
+    (∀ v t, eval num bp bn fuel a s₁ = .ok (v, t) → t = s₁ ∧ eval num bp bn fuel a s₂ = .ok (v, s₂)) := by
+  have h := evalWith_sameOnEquiv num bp bn Variant.code fuel a
+  have hv : (eval num bp bn fuel a s₁).map Prod.fst = (eval num bp bn fuel a s₂).map Prod.fst :=
+    h.2.2 s₁ s₂ hdeep
+  refine ⟨hv, ?_⟩
+  intro v t he
+  have ht : t = s₁ := h.1 s₁ v t he
+  refine ⟨ht, ?_⟩
+  rw [he] at hv
+  cases h2 : eval num bp bn fuel a s₂ with
+  | ok r =>
+    obtain ⟨v', t'⟩ := r
+    rw [h2] at hv
+    simp only [Outcome.map, Outcome.ok.injEq] at hv
+    have : t' = s₂ := h.2.1 s₂ v' t' h2
+    rw [← hv, this]
+  | panic p => rw [h2] at hv; simp [Outcome.map] at hv
+  | diverge => rw [h2] at hv; simp [Outcome.map] at hv
+
+/-- In scopes without shadowing (no name bound in two contexts) the visible bindings are all
+there is: equal visible bindings give equal outcomes. -/
+theorem eval_depends_on_visible_bindings (num : NumOps) (bp : String → List Value → Outcome Value)
+    (bn : String → List (String × Value × Nat) → Outcome Value) (fuel : Nat) (a : Ast)
+    (s₁ s₂ : Scope) (hvis : Scope.equivVisible s₁ s₂) (h₁ : NoShadow s₁) (h₂ : NoShadow s₂) :
+    (eval num bp bn fuel a s₁).map Prod.fst = (eval num bp bn fuel a s₂).map Prod.fst :=
+  (eval_depends_on_bindings_partial num bp bn fuel a s₁ s₂ (equivDeep_of_equivVisible hvis h₁ h₂)).1
+
+/-- non-vacuity: the same two bindings in one context and spread over two -/
+example : Scope.equivVisible [[("a", .null), ("b", .bool true)]] [[("b", .bool true)], [("a", .null)]] ∧
+    NoShadow [[("a", .null), ("b", .bool true)]] ∧ NoShadow [[("b", .bool true)], [("a", .null)]] := by
+  refine ⟨?_, ?_, ?_⟩
+  · intro k
+    simp only [Scope.getEntry, List.reverse_cons, List.reverse_nil, List.nil_append, List.cons_append,
+      List.findSome?_cons, List.findSome?_nil, Ctx.get]
+    by_cases ha : "a" = k <;> by_cases hb : "b" = k <;> simp [ha, hb]
+  · simp [NoShadow]
+  · simp only [NoShadow, List.mem_cons, List.not_mem_nil, or_false, forall_eq, and_true, Ctx.get]
+    refine ⟨fun k => ?_, fun d hd => hd.elim⟩
+    by_cases hb : "b" = k
+    · subst hb; right; simp
+    · left; simp [hb]
+
+/-- **Visible bindings alone do not determine the value.** `a` is visibly bound to null in both
+scopes; in the first a context `{b: true}` is bound to `a` underneath.  The qualified name `a.b`
+(an interval endpoint) is null in the second scope and `true` in the first. -/
+theorem eval_depends_on_bindings_counterexample (num : NumOps) (bp : String → List Value → Outcome Value)
+    (bn : String → List (String × Value × Nat) → Outcome Value) (fuel : Nat) :
+    let s₁ : Scope := [[("a", .ctx [("b", .bool true)])], [("a", .null)]]
+    let s₂ : Scope := [[("a", .null)]]
+    let e : Ast := .qualifiedName [.qualifiedNameSegment "a", .qualifiedNameSegment "b"]
+    Scope.equivVisible s₁ s₂ ∧
+      eval num bp bn fuel e s₁ = .ok (.bool true, s₁) ∧ eval num bp bn fuel e s₂ = .ok (.null, s₂) := by
+  refine ⟨?_, ?_, ?_⟩
+  · intro k
+    simp only [Scope.getEntry, List.reverse_cons, List.reverse_nil, List.nil_append, List.cons_append,
+      List.findSome?_cons, List.findSome?_nil, Ctx.get]
+    by_cases ha : "a" = k <;> simp [ha]
+  · simp [eval, evalStep, evalList, bind_def, pure_def, getScope, scopeSearchDeep, ctxSearchDeep, Ctx.get]
+  · simp [eval, evalStep, evalList, bind_def, pure_def, getScope, scopeSearchDeep, ctxSearchDeep, Ctx.get]
+
+end Dmn.Eval
+
+/-!
+### non-vacuity
+
+Concrete instances of the hypotheses of the theorems above (the conclusions then hold of these
+evaluations).  The general `some_spec` / `every_spec` / `for_spec` are instantiated by
+`eval_some_every_product` / `eval_for_product`, whose hypotheses are met below.
+-/
+
+namespace Dmn.Eval
+open EvalM Value
+
+section
+variable (env : Env)
+
+example (s : Scope) : evalStep env (.add (.boolean true) .null) s = .ok (addV env.num (.bool true) .null, s) :=
+  (arith_spec env _ _ s _ _ (ev_true env s) (ev_null env s)).1
+example (s : Scope) : evalStep env (.lt (.boolean true) .null) s = .ok (ltV (.bool true) .null, s) :=
+  (cmp_spec env _ _ s _ _ (ev_true env s) (ev_null env s)).1
+example (s : Scope) : evalStep env (.neg .null) s = .ok (negV .null, s) := neg_spec env _ s _ (ev_null env s)
+example (s : Scope) : evalStep env (.between .null .null .null) s = .ok (betweenV .null .null .null, s) :=
+  between_spec env _ _ _ s _ _ _ (ev_null env s) (ev_null env s) (ev_null env s)
+example (s : Scope) : evalStep env (.in .null (.boolean true)) s = .ok (inV .null (.bool true), s) :=
+  in_spec env _ _ s _ _ (ev_null env s) (ev_true env s)
+example (s : Scope) : evalStep env (.path .null (.name "a")) s = .ok (pathV .null "a", s) :=
+  (path_spec env _ "a" s _ (ev_null env s)).1
+example : arith_not_numbers_null NumOps.exact .null .null (by intro x y h; cases h) =
+    arith_not_numbers_null NumOps.exact .null .null (by intro x y h; cases h) := rfl
+
+/-- filter with the predicate `item` over `[true, false]` -/
+example : ∃ r, evalStep env (.filter (.list [.boolean true, .boolean false]) (.name "item")) [] = .ok (r, []) := by
+  have hr := name_spec env "item" []
+  refine ⟨_, filter_spec env _ _ [] [.bool true, .bool false] id _ (ev_list2 env []) ?_ hr⟩
+  intro v hv
+  simp only [List.mem_cons, List.not_mem_nil, or_false] at hv
+  rcases hv with rfl | rfl <;>
+    simp [itemScope, evalStep, bind_def, getEntry, Scope.getEntry, Ctx.get, pure_def]
+
+/-- filter on a value that is not a list -/
+example : ∃ r, evalStep env (.filter (.boolean true) (.boolean true)) [] = .ok (r, []) :=
+  ⟨_, filter_scalar_spec env _ _ [] (.bool true) (.bool true) (ev_true env []) (by intro vs h; cases h)
+    (fun _ => ev_true env [])⟩
+
+example (s : Scope) :
+    (evalStep env (.some (.quantifiedContexts (quantItems [("x", .list [], .list [])])) (.satisfies .null)) s
+      = .ok (.bool false, s)) :=
+  (quantified_empty_domain env [("x", .list [], .list [])] .null s
+    (by intro d hd; simp only [List.mem_cons, List.not_mem_nil, or_false] at hd; subst hd; rfl) rfl).1
+
+example (s : Scope) : ∃ r, evalStep env (.for (.iterationContexts
+      (([] ++ ForDom.single "x" (.list []) (.list []) :: []).map ForDom.item)) .null) s = .ok (r, s) :=
+  ⟨_, for_empty_domain env [] [] "x" (.list []) [] .null s
+    (by intro d hd; simp only [List.nil_append, List.mem_cons, List.not_mem_nil, or_false] at hd; subst hd; rfl) rfl⟩
+
+/-- a context literal whose second entry reads the first -/
+example (s : Scope) : ∃ r, evalStep env (.context
+      (([(.name "a", .boolean true, .bool true), (.name "b", .name "a", .bool true)] : List CEntry).map CEntry.ast)) s
+      = .ok (r, s) := by
+  refine ⟨_, context_spec env _ s ?_⟩
+  intro pre e post hsplit
+  rcases pre with _ | ⟨p1, _ | ⟨p2, pre⟩⟩
+  · simp only [List.nil_append, List.cons.injEq] at hsplit
+    obtain ⟨rfl, _⟩ := hsplit
+    rfl
+  · simp only [List.cons_append, List.nil_append, List.cons.injEq] at hsplit
+    obtain ⟨rfl, rfl, _⟩ := hsplit
+    simp [ctxFold, EntryKey.key, Ctx.set, evalStep, bind_def, getEntry, Scope.getEntry, Ctx.get, pure_def]
+  · simp only [List.cons_append, List.cons.injEq] at hsplit
+    obtain ⟨_, _, h3⟩ := hsplit
+    cases pre <;> simp at h3
+
+end
+
+section
+variable (num : NumOps) (bp : String → List Value → Outcome Value)
+  (bn : String → List (String × Value × Nat) → Outcome Value)
+
+/-- `l[1]` in the model of the code -/
+example : ∃ r, eval num bp bn 0 (.filter (.list [.boolean true, .boolean false]) (.name "n")) [[("n", .num (Dec.ofNat 1))]]
+    = .ok (r, [[("n", .num (Dec.ofNat 1))]]) := by
+  refine ⟨_, filter_index_spec num bp bn 0 _ _ _ [.bool true, .bool false] (fun _ => .num (Dec.ofNat 1)) 1 rfl ?_ ?_
+    (by decide) (by decide)⟩
+  · intro v hv
+    simp only [List.mem_cons, List.not_mem_nil, or_false] at hv
+    rcases hv with rfl | rfl <;>
+      simp [eval, itemScope, evalStep, bind_def, getEntry, Scope.getEntry, Ctx.get, pure_def]
+  · simp [eval, evalStep, bind_def, getEntry, Scope.getEntry, Ctx.get, pure_def]
+
+/-- `some x in [true, false] satisfies true` / `every …` -/
+example (s : Scope) : ∃ r, eval num bp bn 0 (.some (.quantifiedContexts
+      (quantItems [("x", .list [.boolean true, .boolean false], .list [.bool true, .bool false])]))
+      (.satisfies (.boolean true))) s = .ok (r, s) := by
+  refine ⟨_, (eval_some_every_product num bp bn 0 _ (.boolean true) s (fun _ => .bool true) ?_ (by simp) rfl ?_ ?_).1⟩
+  · intro d hd; simp only [List.mem_cons, List.not_mem_nil, or_false] at hd; subst hd; rfl
+  · intro d hd; simp only [List.mem_cons, List.not_mem_nil, or_false] at hd; subst hd
+    simp [listOf, Iter.i64Max]
+  · intro c _; rfl
+
+/-- `for x in [true, false] return true` -/
+example (s : Scope) : ∃ r, eval num bp bn 0 (.for (.iterationContexts
+      ([ForDom.single "x" (.list [.boolean true, .boolean false]) (.list [.bool true, .bool false])].map ForDom.item))
+      (.boolean true)) s = .ok (r, s) := by
+  refine ⟨_, (eval_for_product num bp bn 0 _ [Iter.mkList "x" [.bool true, .bool false]] (.boolean true) s
+    (fun _ _ => .bool true) ?_ rfl (by simp) ?_ ?_).1⟩
+  · intro d hd; simp only [List.mem_cons, List.not_mem_nil, or_false] at hd; subst hd; rfl
+  · intro st hst; simp only [List.mem_cons, List.not_mem_nil, or_false] at hst; subst hst
+    simp [Iter.mkList, Iter.i64Max]
+  · intro pre c post _; rfl
+
+/-- `(function(x) x)(true)` and `(function(x) x)(x: true)`; `(function(x) x)()` -/
+example (s : Scope) : ∃ r, eval num bp bn 1 (.functionInvocation
+      (.functionDefinition (.formalParameters [.formalParameter (.parameterName "x") (.feelType .any)])
+        (.functionBody (.name "x") false)) (.positionalParameters [.boolean true])) s = .ok (r, s) := by
+  refine ⟨_, invocation_binds_coerced _ _ _ s [("x", .any)] (.name "x") .any [.bool true]
+    (Value.coerced .any (.bool true)) rfl rfl (by simp) ?_⟩
+  simp [mkEnv, argCtx, Ctx.set, evalStep, bind_def, getEntry, Scope.getEntry, Ctx.get, pure_def]
+
+example (s : Scope) : eval num bp bn 1 (.functionInvocation
+      (.functionDefinition (.formalParameters [.formalParameter (.parameterName "x") (.feelType .any)])
+        (.functionBody (.name "x") false)) (.positionalParameters [])) s = .ok (.null, s) :=
+  invocation_wrong_arity_null _ _ _ s [("x", .any)] (.name "x") .any [] rfl rfl (by simp)
+
+example (s : Scope) : ∃ o, eval num bp bn 1 (.functionInvocation
+      (.functionDefinition (.formalParameters [.formalParameter (.parameterName "x") (.feelType .any)])
+        (.functionBody (.name "x") false)) (.namedParameters [.namedParameter (.parameterName "x") (.boolean true)])) s = o :=
+  ⟨_, named_eq_positional_invocation _ _ _ s [("x", .any)] (.name "x") .any
+    [.namedParam (.paramName "x") (.bool true)] rfl rfl⟩
+
+example : eval num bp bn 3 (.boolean true) [] = .ok (.bool true, []) :=
+  eval_fuel_mono num bp bn 0 3 (by omega) _ _ _ rfl
+
+/-- two scopes of different shapes with the same qualified bindings -/
+example : Scope.equivDeep [[("a", .null), ("b", .bool true)]] [[("b", .bool true)], [("a", .null)]] := by
+  apply equivDeep_of_equivVisible
+  · intro k
+    simp only [Scope.getEntry, List.reverse_cons, List.reverse_nil, List.nil_append, List.cons_append,
+      List.findSome?_cons, List.findSome?_nil, Ctx.get]
+    by_cases ha : "a" = k <;> by_cases hb : "b" = k <;> simp [ha, hb]
+  · simp [NoShadow]
+  · simp only [NoShadow, List.mem_cons, List.not_mem_nil, or_false, forall_eq, and_true, Ctx.get]
+    refine ⟨fun k => ?_, fun d hd => hd.elim⟩
+    by_cases hb : "b" = k
+    · subst hb; right; simp
+    · left; simp [hb]
+
+end
 end Dmn.Eval
